@@ -70,7 +70,9 @@ def layout_flat(tree):
 
 
 class Gen:
-    def __init__(self, rng, params, with_forall=True, with_numeric=True, with_consts=True, with_shadow=False, shadow_p=0.15):
+    def __init__(self, rng, params, with_forall=True, with_numeric=True, with_consts=True, with_shadow=False, shadow_p=0.15,
+                 with_eqonly=False):
+        self.with_eqonly = with_eqonly
         self.with_shadow = with_shadow
         self.shadow_p = shadow_p
         self.rng = rng
@@ -197,6 +199,15 @@ class Gen:
         r = rng.random()
         if depth == 0 or r < 0.5:
             return self.lit(extra)
+        names = self.terms_of("object", extra) if self.with_eqonly else []
+        if len(names) >= 2 and rng.random() < 0.3:
+            # a nested connective all of whose members are object (in)equalities
+            ms = []
+            for _ in range(rng.choice([1, 2, 2])):
+                a, b = rng.sample(names, 2)
+                e = L(S("="), S(a), S(b))
+                ms.append(e if rng.random() < 0.5 else L(S("not"), e))
+            return L(S(rng.choice(["and", "or", "or"])), *ms)
         if r < 0.8:
             k = rng.choice(["and", "or", "or"])
             return L(S(k), *[self.member(depth - 1, extra, in_forall) for _ in range(rng.choice([1, 2, 2, 3]))])
